@@ -496,6 +496,10 @@ func runC14(r *Run) {
 		})
 		r.atLeast("Storage.Set call sites in the cache", n, 2)
 	})
+
+	r.rule("R8", "function-valued Config fields the middleware calls are never nil (E1): set by configDefault on every path, also when no config is passed", func() {
+		configFuncFieldsRule(r, cachePkg, "cache")
+	})
 }
 
 func handleSource(v ssa.Value, slotAddr func(ssa.Value) (*ssa.IndexAddr, bool)) bool {
